@@ -36,7 +36,7 @@ def generate(ctx):
             qs = []
             if rng.random() < 0.6:
                 for _ in range(rng.randint(1, 3)):
-                    qs.append({"kind": rng.choice(["in", "in", "in", "limit", "beyond", "negative", "band"]),
+                    qs.append({"kind": rng.choice(["in", "in", "in", "snap", "snap", "limit", "beyond", "negative", "band"]),
                                "D": rng.choice([0, 0, 1, 2]), "what": rng.choice(["current", "spike"]),
                                "qseed": rng.randrange(1 << 30)})
             queries.append(qs)
@@ -161,7 +161,14 @@ def _selector(desc, q, full, g):
                 fr = 0.25  # keep clear of the nearest tie on non-representable grids
             v = (k + fr) * dt
             c = "in"
-        elif kind == "limit" or (kind == "in" and dk == 0):
+        elif kind == "snap" and dk > 0 and tol > 0:
+            # off the grid by less than the synapse's tolerance: must read exactly step k
+            k = int(g.integers(0, kmax + 1))
+            sgn = 1.0 if (g.random() < 0.5 or k == 0) else -1.0
+            if k >= dk:
+                sgn = -1.0 if k > 0 else 0.0
+            fr, v, c = 0.0, k * dt + sgn * tol / 2, "in"
+        elif kind == "limit" or (kind in ("in", "snap") and (dk == 0 or tol == 0)):
             if g.random() < 0.5 or dk == 0:
                 k, fr, v, c = 0, 0.0, 0.0, "in"
             else:
